@@ -2,6 +2,7 @@ CONSTANTS Depth = 4 MaxH = 3 SelSet = "small" AsgSet = "full" FunSet = "small" R
 SPECIFICATION Spec
 INVARIANT RefinesModuloStale
 INVARIANT WrongOnlyIfStale
+INVARIANT StaleWithinMayStale
 INVARIANT AliasesAgree
 INVARIANT ContigOwnBuffer
 INVARIANT DerivedIsFresh
